@@ -51,8 +51,9 @@ theorem gen_expose {K : Type} [Field K] [LinearOrder K] [IsStrictOrderedRing K]
   rw [gen_expose_chain, gen_adc_cap]; rfl
 
 /-- RECOGNISER FACT (no Lean content; the shape is checked on the real output in every correspondence case): the result is
-reshaped to `(frames, *image.shape)` and squeezed only for a single frame -/
-theorem gen_expose_shape : exposeShapeIsFramesByImage = true := by decide
+reshaped to `(frames, *image.shape)` and squeezed only for a single frame; every flatten / reshape is in C order (pixel k of
+the flat vector is pixel k of the result, whatever the memory layout of the input) -/
+theorem gen_expose_shape : exposeShapeIsFramesByImage = true ∧ exposeFlattensInCOrder = true := by decide
 
 /-- `bindown`: output length `s // f`, view of shape `(s0//f0, f0, s1//f1, f1, …)`, reduction over the
 odd axes, `mean` for avg / `sum` for sum -/
